@@ -296,6 +296,19 @@ static spec_verdict vr_exp_Rfc3161RecordHashAlgorithmVerification(const KSI_Veri
 	        spec_alg_rule_fails(spec_hashalg_status_at((long long)r->tstInfoAlgo->value, vr_time_ll(r->aggregationTime->value))))
 		? SPEC_VFAIL(SPEC_VERR_INT(14)) : SPEC_VOK;
 }
+/* INT-01, RFC3161 part: the output hash computed from the RFC3161 record (out_known / out: result of the hashing) equals
+ * the input hash of the first chain; signatures without RFC3161 record pass */
+static spec_verdict vr_exp_AggregationChainInputHashVerification(const KSI_VerificationContext *info, int out_known, const KSI_DataHash *out) {
+	const KSI_AggregationHashChain *c;
+	if (!VR_INFO_OK(info)) return SPEC_VNA;
+	if (info->signature->rfc3161 == NULL) return SPEC_VOK;
+	if (!out_known) return SPEC_VNA;
+	if (info->signature->aggregationChainList == NULL) return SPEC_VNOTOK;      /* mandatory list absent: malformed */
+	c = vr_first_chain(info->signature);
+	if (c == NULL) return SPEC_VNA;
+	if (c->inputHash == NULL) return SPEC_VNOTOK;
+	return vr_hash_eq(out, c->inputHash) ? SPEC_VOK : SPEC_VFAIL(SPEC_VERR_INT(1));
+}
 /* INT-03: aggregation root (tempData, computed by the consistency rule) equals the calendar chain's input hash */
 static spec_verdict vr_exp_CalendarHashChainInputHashVerification(const KSI_VerificationContext *info, const KSI_DataHash *aggrOut) {
 	if (!VR_INFO_OK(info) || info->tempData == NULL || info->signature->calendarChain == NULL) return SPEC_VNA;
